@@ -31,6 +31,12 @@ pub const NOT_INSTRUCTION_METHODS: &[&str] = &[
     "emit_u128",
 ];
 
+/// public instruction methods without a row (method, reason): none -- every public method is a row
+/// or in NOT_INSTRUCTION_METHODS. Not reachable through any public method (so not covered by any row):
+/// the private immediate forms b_imm / bc_imm / tbz_imm / tbnz_imm and the FP/SIMD (`v`) variant of
+/// cls::ldst_pair*.
+pub const NOT_COVERED: &[(&str, &str)] = &[];
+
 /// rows that CBMC decides, but slowly (5 min for mov_imm, 10-15 min and several GB each for the
 /// ldr_mem_* / str_mem_* helpers, which contain mov_imm): a driver with a time budget may skip them.
 pub const SLOW_ROWS: &[&str] = &[
